@@ -196,6 +196,8 @@ var c15ProjOpts = []c15Opt{
 	{"env_cmds.EC", "echo one", "echo two"},
 	{"shell.shell_command", "sh", "bash"},
 	{"shell.shell_argument", "-c", "-ec"},
+	{"shell.elevated_shell_command", "sudo", "doas"},
+	{"shell.elevated_shell_argument", "-S", "-n"},
 }
 
 var c15EnvVals = []string{"", "x", "a=b", "x y", "\"q\"", "k=v=w", "%Y-%m-%d 100%", "$HOME/{{.X}}\\n"}
@@ -209,7 +211,7 @@ type c15Input struct {
 }
 
 func c15E2(tier string, o *E2Out) {
-	o.Rule = "E2: two-file (thorough three-file) chains: (a) every documented single-valued option of the table (21 per process, 8 per project), one at a time, base in {unset,v1} x override in {unset,v2}, on a process present in both files that also carries untouched settings, the later file naming only that option or restating the whole definition; (b) environment entry A with every value of {\"\", x, a=b, 'x y', '\"q\"', k=v=w, '%Y-%m-%d 100%', '$HOME/{{.X}}\\n'} or absent in base x override, per process and global, next to an untouched entry B; (c) depends_on keys and processes only-in-base / only-in-override / both; (d) extends vs naming both files (working_dir empty / relative / absolute in the base). Oracle: the merged project equals a single-file load of the reference fold (later wins per key, environment split at the first '='). Non-trivial = both files mention something."
+	o.Rule = "E2: two-file (thorough three-file) chains: (a) every documented single-valued option of the table (21 per process, 10 per project), one at a time, base in {unset,v1} x override in {unset,v2}, on a process present in both files that also carries untouched settings, the later file naming only that option or restating the whole definition, or naming another option of the same block (shell, availability, shutdown, liveness_probe); (b) environment entry A with every value of {\"\", x, a=b, 'x y', '\"q\"', k=v=w, '%Y-%m-%d 100%', '$HOME/{{.X}}\\n'} or absent in base x override, per process and global, next to an untouched entry B; (c) depends_on keys and processes only-in-base / only-in-override / both; (d) extends vs naming both files (working_dir empty / relative / absolute in the base). Oracle: the merged project equals a single-file load of the reference fold (later wins per key, environment split at the first '='). Non-trivial = both files mention something."
 	o.Exhaustive = true
 	dir, _ := os.MkdirTemp("", "vh-c15-")
 	defer os.RemoveAll(dir)
@@ -337,6 +339,37 @@ func c15E2(tier string, o *E2Out) {
 				}
 				run("project-option", op.path, []cfgMap{b, over})
 			}
+		}
+	}
+	// siblings inside one block: the earlier file sets one key of the block, the later file another key of the
+	// same block only - the earlier key survives (a block is merged key by key, not replaced)
+	block := func(path string) string {
+		if i := strings.LastIndex(path, "."); i > 0 {
+			return path[:i]
+		}
+		return ""
+	}
+	for _, a := range c15ProjOpts {
+		for _, b2 := range c15ProjOpts {
+			if a.path == b2.path || block(a.path) == "" || block(a.path) != block(b2.path) {
+				continue
+			}
+			b := skeleton(baseProc())
+			b.set(a.path, a.v1)
+			over := cfgMap{"version": "0.5"}
+			over.set(b2.path, b2.v2)
+			run("project-option-sibling", a.path, []cfgMap{b, over})
+		}
+	}
+	for _, a := range c15ProcOpts {
+		for _, b2 := range c15ProcOpts {
+			if a.path == b2.path || block(a.path) == "" || block(a.path) != block(b2.path) {
+				continue
+			}
+			b, ov := baseProc(), cfgMap{}
+			b.set(a.path, a.v1)
+			ov.set(b2.path, b2.v2)
+			run("proc-option-sibling", a.path, []cfgMap{skeleton(b), {"version": "0.5", "processes": cfgMap{"p": ov}}})
 		}
 	}
 	// (b) environment entries
